@@ -1181,7 +1181,10 @@ func c01r4(c *Ctx) {
 			ws    *WriterSite
 		}
 		var sites []site
-		for _, cc := range callsIn(fn) {
+		// inlined view: writers that were extracted into unexported helpers of the reconcile function are
+		// judged at their real site, with the facts imported from the helper's call sites
+		for _, xc := range p.callsInX(fn) {
+			cc := xc.Call
 			if ws, ok := classifyWriter(cc); ok {
 				w := ws
 				sites = append(sites, site{instr: cc.Instr, objs: []ssa.Value{ws.Obj}, what: "writer." + ws.Verb, verb: ws.Verb, ws: &w})
@@ -1199,7 +1202,7 @@ func c01r4(c *Ctx) {
 		}
 		for _, s := range sites {
 			o := c.Ob(fn, "write-"+s.what, s.instr, c.rule.Statement)
-			fs := p.FactsAt(s.instr.Block())
+			fs := p.FactsAtX(s.instr.Block())
 			// (a) under IsController(owner, x), x the checked object / its copy, and x among the written objects
 			underControl := false
 			for _, x := range s.objs {
@@ -1292,7 +1295,8 @@ func c01r5(c *Ctx) {
 		recFn[inv.Fn] = true
 		fs := p.FactsAt(inv.Block())
 		_ = fs
-		for _, cc := range callsIn(inv.Fn) {
+		for _, xc := range p.callsInX(inv.Fn) {
+			cc := xc.Call
 			impls := c01WriterIfaceImpls(p, cc.Common)
 			if len(impls) == 0 {
 				continue
@@ -1300,7 +1304,7 @@ func c01r5(c *Ctx) {
 			// only implementations invoked under the IsController guard count as covered by R4
 			guarded := false
 			for _, a := range callArgs(cc.Common) {
-				if p.factOwnerTest(p.FactsAt(cc.Block()), "IsController", true, a) {
+				if p.factOwnerTest(p.FactsAtX(cc.Block()), "IsController", true, a) {
 					guarded = true
 				}
 			}
@@ -1329,8 +1333,10 @@ func c01r5(c *Ctx) {
 		fn := ws.Call.Fn
 		pk := funcPkgPath(fn)
 		o := c.Ob(fn, "dyn-"+ws.Verb, ws.Call.Instr, c.rule.Statement)
+		// a writer that sits in an extracted (unexported, statically called) helper belongs to the
+		// functions the helper is inlined into
 		switch {
-		case recFn[fn]:
+		case recFn[fn] || p.inlinedInto(fn, recFn):
 			o.OK("in the reconcile function: checked by C01.R4")
 		case implFn[fn]:
 			// reachable only through an interface of the phase reconciler that is invoked under IsController
@@ -1343,7 +1349,7 @@ func c01r5(c *Ctx) {
 			}
 		case ws.Verb == "Delete":
 			o.OK("delete: checked by C05.R1")
-		case hasDynDelete[fn] && ws.Verb == "Patch":
+		case (hasDynDelete[fn] || p.inlinedInto(fn, hasDynDelete)) && ws.Verb == "Patch":
 			o.OK("co-owner release in the teardown function: checked by C05.R3")
 		case c01HasDryRunAll(ws):
 			o.OK("dry-run (client.DryRunAll): nothing is persisted")
